@@ -285,3 +285,11 @@ class SElem(object):
 
   def __repr__(self):
     return "SElem(%r[%s]%s)" % (self.ref, self.idx, "".join("." + p for p in self.path))
+
+
+class SEnum(object):
+  """enumerate() over a symbolic list"""
+  __slots__ = ("ref",)
+
+  def __init__(self, ref):
+    self.ref = ref
